@@ -136,6 +136,32 @@ Qed.
 Lemma do_req_tls g e c : c_tls (snd (do_req_gen g e c)) = c_tls c.
 Proof. unfold do_req_gen. rewrite after_response_tls. apply round_trip_tls. Qed.
 
+(* a Connection: close request ends in the state of the ordinary round trip, possibly with the h2 connection or
+   the idle HTTP/1 connection it travelled on dropped - or, forced HTTP/2 (own single-use connection), unchanged *)
+Lemma round_trip_close_client g e c :
+  let c1 := snd (round_trip_gen g e c) in
+  let r := snd (round_trip_close g e c) in
+  r = c \/ r = c1 \/ r = with_t2 false c1 \/ r = clear_idle c1.
+Proof.
+  cbn zeta. unfold round_trip_close.
+  destruct (c_force c); try (destruct (own_h2_conn e c) as [o ds]; left; reflexivity);
+    destruct (round_trip_gen g e c) as [[o ds] c1]; cbn [snd];
+    destruct o as [[| |]| |]; try (right; left; reflexivity);
+    try (right; right; right; reflexivity);
+    (destruct ds; [right; right; left; reflexivity | destruct (own_h2_conn e c1); right; left; reflexivity]).
+Qed.
+
+Lemma clear_idle_tls c : c_tls (clear_idle c) = c_tls c.
+Proof. unfold clear_idle. destruct (c_force c); reflexivity. Qed.
+
+Lemma do_req_close_tls g e c : c_tls (snd (do_req_close_gen g e c)) = c_tls c.
+Proof.
+  unfold do_req_close_gen. rewrite after_response_tls.
+  pose proof (round_trip_tls g e c) as T.
+  destruct (round_trip_close_client g e c) as [H|[H|[H|H]]]; rewrite H; try exact T; try reflexivity.
+  rewrite clear_idle_tls. exact T.
+Qed.
+
 Lemma do_bg_tls e c : c_tls (snd (do_bg e c)) = c_tls c.
 Proof.
   unfold do_bg. destruct (negb (c_bg c)); [reflexivity|].
@@ -151,6 +177,7 @@ Proof.
   all: try (cbn; destruct closeidle_closes_h3; reflexivity).
   all: try (pose proof (do_bg_tls e c) as H; destruct (do_bg e c) as [ds c']; exact H).
   all: try (pose proof (do_req_tls g e c) as H; destruct (do_req_gen g e c) as [[o ds] c']; exact H).
+  all: try (pose proof (do_req_close_tls g e c) as H; destruct (do_req_close_gen g e c) as [[o ds] c']; exact H).
   destruct (do_req_gen g e (fork_apply a (do_clone c))) as [[o ds] c2]. destruct (do_bg e c2) as [ds2 c3]. reflexivity.
 Qed.
 
@@ -643,6 +670,18 @@ Lemma do_req_inv g e c :
   inv3 e c -> inv2 e c -> inv3 e (snd (do_req_gen g e c)) /\ inv2 e (snd (do_req_gen g e c)).
 Proof. intros. unfold do_req_gen. apply after_response_inv, round_trip_inv; auto. Qed.
 
+Lemma do_req_close_inv g e c :
+  inv3 e c -> inv2 e c -> inv3 e (snd (do_req_close_gen g e c)) /\ inv2 e (snd (do_req_close_gen g e c)).
+Proof.
+  intros I3 I2. unfold do_req_close_gen. apply after_response_inv.
+  pose proof (round_trip_inv g e c I3 I2) as [J3 J2].
+  destruct (round_trip_close_client g e c) as [H|[H|[H|H]]]; rewrite H.
+  - split; assumption.
+  - split; assumption.
+  - unfold inv3, inv2 in *. cbn. split; [exact J3 | discriminate].
+  - unfold inv3, inv2, clear_idle in *. destruct (c_force (snd (round_trip_gen g e c))); cbn; split; assumption.
+Qed.
+
 Lemma do_bg_inv e c : inv3 e c -> inv2 e c -> inv3 e (snd (do_bg e c)) /\ inv2 e (snd (do_bg e c)).
 Proof.
   unfold do_bg, inv3, inv2. intros I3 I2. destruct (negb (c_bg c)); [auto|].
@@ -687,6 +726,7 @@ Proof.
   all: try (unfold inv3, inv2; cbn; destruct closeidle_closes_h3; cbn; split; auto; discriminate).
   all: try (pose proof (do_bg_inv e c I3 I2) as H; destruct (do_bg e c) as [ds c']; exact H).
   all: try (pose proof (do_req_inv g e c I3 I2) as H; destruct (do_req_gen g e c) as [[o ds] c']; exact H).
+  all: try (pose proof (do_req_close_inv g e c I3 I2) as H; destruct (do_req_close_gen g e c) as [[o ds] c']; exact H).
   destruct (do_req_gen g e (fork_apply a (do_clone c))) as [[o ds] c2]. destruct (do_bg e c2) as [ds2 c3]. cbn [snd]. auto.
 Qed.
 
@@ -924,6 +964,14 @@ Proof.
     destruct er; try reflexivity; destruct (verify_ok _ _); reflexivity.
 Qed.
 
+Lemma do_req_close_plain g e c : c_plain_dialtls (snd (do_req_close_gen g e c)) = c_plain_dialtls c.
+Proof.
+  unfold do_req_close_gen. rewrite after_response_plain.
+  pose proof (round_trip_plain g e c) as T.
+  destruct (round_trip_close_client g e c) as [H|[H|[H|H]]]; rewrite H; try exact T; try reflexivity.
+  unfold clear_idle. destruct (c_force (snd (round_trip_gen g e c))); exact T.
+Qed.
+
 Lemma step_plain g e c o : c_plain_dialtls c = false -> c_plain_dialtls (snd (step_gen g e c o)) = false.
 Proof.
   intros P. destruct o; cbn [step_gen snd].
@@ -933,6 +981,7 @@ Proof.
   all: try (cbn; destruct closeidle_closes_h3; cbn; exact P).
   all: try (pose proof (do_bg_plain e c) as H; destruct (do_bg e c) as [ds c']; cbn [snd] in *; rewrite H; exact P).
   all: try (pose proof (do_req_plain g e c) as H; destruct (do_req_gen g e c) as [[o ds] c']; cbn [snd] in *; rewrite H; exact P).
+  all: try (pose proof (do_req_close_plain g e c) as H; destruct (do_req_close_gen g e c) as [[o ds] c']; cbn [snd] in *; rewrite H; exact P).
   destruct (do_req_gen g e (fork_apply a (do_clone c))) as [[o ds] c2]. destruct (do_bg e c2) as [ds2 c3]. exact P.
 Qed.
 
@@ -1179,3 +1228,130 @@ Lemma gen_single_config_read_per_dial :
   clone_own_options = true /\ t3_shares_options = true /\
   h3_dial_config_per_dial = true /\ h2_config_per_dial = true.
 Proof. repeat split; reflexivity. Qed.
+
+(* ---------- two authorities of one origin: nothing is carried from one to the other ---------- *)
+Lemma step_obs_cfg g e e' c o : host_directed o = false -> fst (step_gen g e c o) = fst (step_gen g e' c o).
+Proof. destruct o; try discriminate; intros _; try reflexivity; try (destruct f; reflexivity). Qed.
+
+Lemma step_cfg_env g e e' c o : host_directed o = false -> snd (step_gen g e c o) = snd (step_gen g e' c o).
+Proof. destruct o; try discriminate; intros _; try reflexivity; try (destruct f; reflexivity). Qed.
+
+(* what the client does at authority A (resp. B) in a two-authority sequence is exactly what it does in the
+   one-authority sequence from which everything directed at the other authority has been removed *)
+Lemma run2_proj eA eB ops : forall cA cB,
+  fst (snd (run2 eA eB (cA, cB) ops)) = snd (run eA cA (proj_host false ops)) /\
+  snd (snd (run2 eA eB (cA, cB) ops)) = snd (run eB cB (proj_host true ops)).
+Proof.
+  unfold run. induction ops as [|[b o] r IH]; intros cA cB; [split; reflexivity|].
+  cbn [run2 step2 proj_host]. destruct (host_directed o) eqn:HD; cbn [negb orb].
+  - destruct b; cbn [Bool.eqb].
+    + unfold step. destruct (step_gen altsvc_only_unforced eB cB o) as [x cB'] eqn:S.
+      specialize (IH cA cB'). destruct (run2 eA eB (cA, cB') r) as [xs w2]. cbn [snd] in *.
+      cbn [run_gen]. rewrite S. destruct (run_gen altsvc_only_unforced eB cB' (proj_host true r)) as [ys c2].
+      exact IH.
+    + unfold step. destruct (step_gen altsvc_only_unforced eA cA o) as [x cA'] eqn:S.
+      specialize (IH cA' cB). destruct (run2 eA eB (cA', cB) r) as [xs w2]. cbn [snd] in *.
+      cbn [run_gen]. rewrite S. destruct (run_gen altsvc_only_unforced eA cA' (proj_host false r)) as [ys c2].
+      exact IH.
+  - unfold step. destruct (step_gen altsvc_only_unforced eA cA o) as [x cA'] eqn:SA.
+    destruct (step_gen altsvc_only_unforced eB cB o) as [y cB'] eqn:SB.
+    specialize (IH cA' cB'). destruct (run2 eA eB (cA', cB') r) as [xs w2]. cbn [snd] in *.
+    cbn [run_gen]. rewrite SA, SB.
+    destruct (run_gen altsvc_only_unforced eA cA' (proj_host false r)) as [ys c2].
+    destruct (run_gen altsvc_only_unforced eB cB' (proj_host true r)) as [zs c3]. exact IH.
+Qed.
+
+Lemma settings_proj b ops t : settings (proj_host b ops) t = settings (map snd ops) t.
+Proof.
+  revert t. induction ops as [|[b' o] r IH]; intros t; [reflexivity|].
+  cbn [proj_host map snd]. unfold settings in *. cbn [fold_left].
+  destruct (host_directed o) eqn:HD; cbn [negb orb].
+  - assert (E : cfg_op o t = t) by (destruct o; try discriminate; reflexivity).
+    rewrite E. destruct (Bool.eqb b b'); [cbn [fold_left]; rewrite E|]; apply IH.
+  - cbn [fold_left]. apply IH.
+Qed.
+
+(* the tls.Config every stack builds for a connection to either authority carries the settings the setters
+   accumulated and the name of THAT authority (when no ServerName is configured): no request to the other
+   authority - on any version, in any order - leaves anything behind in it *)
+Lemma tls_uniform_two_hosts eA eB ops cA cB s only_h1 :
+  c_tls cA = c_tls cB ->
+  let w := snd (run2 eA eB (cA, cB) ops) in
+  sec (tls_view s only_h1 (e_host eA) (c_tls (fst w))) = sec (effective (e_host eA) (settings (map snd ops) (c_tls cA))) /\
+  sec (tls_view s only_h1 (e_host eB) (c_tls (snd w))) = sec (effective (e_host eB) (settings (map snd ops) (c_tls cA))).
+Proof.
+  intros E w. subst w. destruct (run2_proj eA eB ops cA cB) as [PA PB]. rewrite PA, PB. split.
+  - rewrite tls_uniform_run, settings_proj. reflexivity.
+  - rewrite tls_uniform_run, settings_proj, E. reflexivity.
+Qed.
+
+(* ---------- requests that ask for a connection of their own (Connection: close) ---------- *)
+Lemma gen_plain_from_request : h2_plain_from_request_scheme = true.
+Proof. reflexivity. Qed.
+
+Lemma own_h2_conn_outcome e c :
+  fst (own_h2_conn e c) = Use V2 \/ exists er, fst (own_h2_conn e c) = Fail er.
+Proof.
+  unfold own_h2_conn. pose proof (rt_h2_dial_outcome e (with_t2 false c)) as H. unfold outcome_of in H.
+  destruct (rt_h2_dial e (with_t2 false c)) as [[o ds] c']. exact H.
+Qed.
+
+Lemma forced_close_round_trip e c v :
+  version_of (c_force c) = Some v ->
+  match outcome_of (round_trip_close true e c) with
+  | Use v' => v' = v
+  | Cleartext => c_plain_dialtls c = true /\ e_https e = true
+  | Fail _ => True
+  end.
+Proof.
+  intros Hf. pose proof (forced_round_trip e c v Hf) as R. unfold round_trip_close, outcome_of in *.
+  destruct (c_force c) eqn:F; cbn in Hf; inversion Hf; subst.
+  - destruct (round_trip_gen true e c) as [[o ds] c1]. cbn [fst] in R.
+    destruct o as [[| |]| |]; try discriminate; cbn [fst]; try exact R; destruct ds; exact R.
+  - pose proof (own_h2_conn_outcome e c) as O. destruct (own_h2_conn e c) as [o ds]. cbn [fst] in *.
+    destruct O as [->|[er ->]]; [reflexivity | exact I].
+  - destruct (round_trip_gen true e c) as [[o ds] c1]. cbn [fst] in R.
+    destruct o as [[| |]| |]; try discriminate; cbn [fst]; try exact R; destruct ds; exact R.
+Qed.
+
+Lemma forced_close_version_or_fail e c v :
+  version_of (c_force c) = Some v ->
+  match outcome_of (do_req_close e c) with
+  | Use v' => v' = v
+  | Cleartext => c_plain_dialtls c = true /\ e_https e = true
+  | Fail _ => True
+  end.
+Proof.
+  intros H. unfold do_req_close, do_req_close_gen. rewrite gen_guard, after_response_outcome.
+  apply forced_close_round_trip, H.
+Qed.
+
+Lemma round_trip_close_cleartext g e c :
+  outcome_of (round_trip_close g e c) = Cleartext -> c_plain_dialtls c = true.
+Proof.
+  pose proof (round_trip_cleartext g e c) as R. unfold round_trip_close, outcome_of in *.
+  destruct (c_force c);
+    try (pose proof (own_h2_conn_outcome e c) as O; destruct (own_h2_conn e c) as [o ds]; cbn [fst] in *;
+         destruct O as [->|[er ->]]; discriminate);
+    destruct (round_trip_gen g e c) as [[o ds] c1]; cbn [fst] in R;
+    destruct o as [[| |]| |]; cbn [fst]; try discriminate; try exact R;
+    (destruct ds; [discriminate|]);
+    pose proof (own_h2_conn_outcome e c1) as O; destruct (own_h2_conn e c1) as [o2 ds2]; cbn [fst] in *;
+    destruct O as [->|[er ->]]; discriminate.
+Qed.
+
+Lemma close_never_in_clear e c : reachable e c -> outcome_of (do_req_close e c) <> Cleartext.
+Proof.
+  intros R K. unfold do_req_close, do_req_close_gen in K. rewrite after_response_outcome in K.
+  apply round_trip_close_cleartext in K. rewrite (reachable_no_plain e c R) in K. discriminate.
+Qed.
+
+(* forced HTTP/2 (with or without h2c enabled): the single-use connection of a Connection: close request is
+   handshaken under the settings that govern TCP connections, like every other *)
+Lemma close_forced_h2_sound g e c :
+  c_force c = FH2 -> req_sound e c (round_trip_close g e c).
+Proof.
+  intros F. unfold round_trip_close, own_h2_conn. rewrite F.
+  pose proof (rt_h2_dial_sound e (with_t2 false c)) as S.
+  destruct (rt_h2_dial e (with_t2 false c)) as [[o ds] c']. exact S.
+Qed.
